@@ -8,7 +8,11 @@ SPEC = dict(
          "(SET, WATCH + MULTI/INCR/EXEC, SUBSCRIBE, CLIENT TRACKING ON, SetPubSubHooks, SetOnInvalidations, an abandoned blocking "
          "command), blocking commands of ordinary callers sharing the pool (some abandoned), release / Close in any order, every entry "
          "point called again after release, 0-3 goroutines of shared pipelined traffic throughout; server version 7 or 6 "
-         "(SUNSUBSCRIBE in the clean-up or not). Every command names its issuer. Non-trivial = at least one pool connection was used",
+         "(SUNSUBSCRIBE in the clean-up or not). Every command names its issuer. A quarter of the cases are the retry family: retries "
+         "enabled, a read-only command through Do / DoMulti answered -LOADING 1-3 times, the session released or closed before the call, "
+         "after it, or in the back-off after attempt k (inside the RetryDelay callback), another session acquiring the connection and "
+         "sitting between MULTI and EXEC when the retry comes, then every entry point of the ended session and a third session. "
+         "Non-trivial = at least one pool connection was used",
     trusted=["fake Redis server per-connection logs (issuer names in the keys) as the ground truth of who wrote what on which connection",
              "pool connections are numbered by the server in dial order (2, 3, ...); the model numbers its wires the same way"],
     assumptions=["the pool is abstracted to 'a wire is idle or held by one holder, idle wires are reused LIFO' (its own concurrency is C24's subject)",
@@ -20,13 +24,16 @@ MANIFEST = dict(
     text="Proof: over every program of dedicated sessions, pooled blocking commands and shared commands — the log of what the server sees on "
          "the pool connections is accepted by the 'one holder per wire' specification in every reachable state (C25_exclusive: acquire only "
          "when free, only the holder's commands until its release); release and Close mark the client for good and every entry point of a "
-         "marked client returns ErrDedicatedClientRecycled without writing anything or touching a wire (C25_recycled); release appends "
+         "marked client returns ErrDedicatedClientRecycled without writing anything or touching a wire (C25_recycled); the retry loop "
+         "of Do / DoMulti re-checks the mark before every attempt, so once a client is marked — also during the back-off of a call in "
+         "progress — no continuation of the program adds a command of that client to any connection (C25_no_send_after_release); release appends "
          "exactly Store's clean-up in the holder's name — hooks cleared, UNSUBSCRIBE/PUNSUBSCRIBE/[SUNSUBSCRIBE]/DISCARD when pipelining "
          "(or the connection closed after an abandoned blocking command), CLIENT TRACKING OFF iff an invalidation hook was installed — "
          "before the wire is idle again (C25_cleanup, C25_cleanup_sequence). Tied to the code by running generated programs on a real "
          "client with concurrent shared traffic against the fake server and comparing per-connection command sequences, results of every "
          "call and the shared connection with the model, plus a direct oracle (issuers form contiguous blocks on every pool connection, "
-         "nothing after release, calls after release rejected, live sessions undisturbed, TRACKING OFF before reuse).",
+         "nothing after release — also not from a call that was retrying when the session ended —, calls after release rejected, live sessions "
+         "and their MULTI/EXEC undisturbed, TRACKING OFF before reuse).",
     note="Partial: the pool is abstract and whole operations are atomic in the model; isolation under the real scheduler is observed with "
          "concurrent shared traffic only. A genuine defect was found and repaired: Close() on an already released DedicatedClient closed the "
          "recycled connection under another dedicated client (single and cluster client); model and theorems follow the repaired code. "
